@@ -9,6 +9,7 @@ import (
 	cid "github.com/ipfs/go-cid"
 	cbor "github.com/ipfs/go-ipld-cbor"
 	"github.com/ipfs/ipfs-cluster/api"
+	ma "github.com/multiformats/go-multiaddr"
 	mh "github.com/multiformats/go-multihash"
 
 	"verif/simkit"
@@ -80,8 +81,8 @@ func genC04(tier string, seed uint64) *simkit.Plan {
 			if r.Chance(0.2) {
 				st.User = r.Perm(members)[:r.Range(1, min(2, members))]
 			}
-			if r.Chance(0.2) {
-				st.Origins = r.Range(1, 3)
+			if r.Chance(0.3) {
+				st.OriginIx = r.Perm(5)[:r.Range(1, 3)] // any subset in any order: origins get added, dropped, replaced, reordered
 			}
 			if r.Chance(0.12) {
 				st.From = 1 + r.Intn(ncids) // update source
@@ -104,7 +105,7 @@ func genC04(tier string, seed uint64) *simkit.Plan {
 			// metadata key removed / added: resolved against the model at run time
 			st.Op = "repin"
 			st.Cid = r.Intn(ncids)
-			st.N = r.Intn(4) // 0 identical, 1 drop a metadata key, 2 add a key, 3 change a value
+			st.N = r.Intn(7) // 0 identical, 1 drop a metadata key, 2 add a key, 3 change a value, 4 replace the last origin, 5 reverse the origins (same set), 6 drop the first origin
 		case 4:
 			st.Op = "unpin"
 			st.Cid = 50 + r.Intn(4) // shard / cluster-DAG entries and unknown CIDs
@@ -273,6 +274,9 @@ func execC04(plan *simkit.Plan, run *simkit.Run) {
 		opts.Metadata = metaMap(s.Meta)
 		opts.UserAllocations = w.peersOf(s.User)
 		opts.Origins = originAddrs(s.Origins)
+		if len(s.OriginIx) > 0 {
+			opts.Origins = originList(s.OriginIx)
+		}
 		var from cid.Cid
 		if s.From > 0 {
 			from = w.cids[(s.From-1)%len(w.cids)]
@@ -317,6 +321,21 @@ func execC04(plan *simkit.Plan, run *simkit.Run) {
 				md = nil
 			}
 			opts.Metadata = md
+			if n := len(ex.Origins); n > 0 {
+				og := append([]ma.Multiaddr{}, ex.Origins...)
+				switch s.N {
+				case 4:
+					og[n-1] = originList([]int{9})[0]
+					run.Probe("origin_replaced")
+				case 5:
+					for a, b := 0, n-1; a < b; a, b = a+1, b-1 {
+						og[a], og[b] = og[b], og[a]
+					}
+				case 6:
+					og = og[1:]
+				}
+				opts.Origins = og
+			}
 			if !opts.ExpireAt.IsZero() && opts.ExpireAt.Before(now) {
 				opts.ExpireAt = time.Time{}
 			}
